@@ -1495,6 +1495,21 @@ def nonneg(d, B, env, tyof, rels, depth):
     return False
 
 
+def prove_le(F, S, b, p, bb, e1, e2, envs):
+    """e1 <= e2 at block bb of path p, for every variant, from the path's facts (interval + linear relational reasoning)"""
+    B = Bounds(S, p, bb)
+    raws = [d for (_, d, _, _) in p.conds]
+    tyof = tyof_factory(S, b, build_tymap(S, raws))
+    LENOF[0] = lambda x, env: _slen(F, b, x, B, env, tyof)
+    SYMLEN[0] = lambda x, env: symlen(F, b, x, env)
+    conds_n = [pn(S, d) for (_, d, _, _) in p.conds]
+    for env in ([e for _, e in envs] if envs else [None]):
+        rels = list(B.rel) + derived_rels(conds_n + [e1, e2])
+        if not le(e1, e2, B, env, tyof, rels):
+            return False
+    return True
+
+
 def symlen(F, b, e, env):
     """Symbolic length (normalised expression) of a slice-valued expression, or None."""
     k = e[0]
